@@ -286,6 +286,8 @@ impl IndexBase for ColumnIndex {
     }
 
     fn merge_parallel(&mut self, cols: &[ColumnId], table: WrappedTableRef, subset: SubsetRef) {
+        #[cfg(feature = "verif-hooks")]
+        crate::verif::hit(crate::verif::Site::index_merge_parallel);
         const BATCH_SIZE: usize = 1024;
         let shard_data = self.shard_data;
         let mut queues = IdVec::<ShardId, Mutex<Vec<(RowId, TaggedRowBuffer)>>>::with_capacity(
